@@ -654,8 +654,15 @@ impl Supervisor {
         let mut data: Vec<u8> = Vec::new();
         let mut last = self.read_cell();
         let mut last_change = std::time::Instant::now();
+        let mut cpu_at_change = child_cpu_ticks(pid);
         let mut timed_out = false;
         let mut buf = [0u8; 65536];
+        // A case is a hang when the child burns `case_timeout` of *CPU time* on it
+        // (robust against a starved machine), or shows no progress for 20x that
+        // long in wall-clock time (blocked forever).
+        let tick = unsafe { libc::sysconf(libc::_SC_CLK_TCK) }.max(1) as u64;
+        let cpu_limit_ticks = (case_timeout.as_millis() as u64 * tick / 1000).max(1);
+        let wall_cap = case_timeout * 20;
         'outer: loop {
             let mut pfd = libc::pollfd { fd: rfd, events: libc::POLLIN, revents: 0 };
             let pr = unsafe { libc::poll(&mut pfd, 1, 50) };
@@ -676,10 +683,14 @@ impl Supervisor {
             if cur != last {
                 last = cur;
                 last_change = std::time::Instant::now();
+                cpu_at_change = child_cpu_ticks(pid);
             } else if last_change.elapsed() > case_timeout {
-                timed_out = true;
-                unsafe { libc::kill(pid, libc::SIGKILL) };
-                break;
+                let cpu = child_cpu_ticks(pid);
+                if cpu.saturating_sub(cpu_at_change) >= cpu_limit_ticks || last_change.elapsed() > wall_cap {
+                    timed_out = true;
+                    unsafe { libc::kill(pid, libc::SIGKILL) };
+                    break;
+                }
             }
         }
         unsafe { libc::close(rfd) };
@@ -766,6 +777,21 @@ impl Supervisor {
             }
         }
     }
+}
+
+/// utime + stime of a process in clock ticks (0 if unreadable).
+fn child_cpu_ticks(pid: libc::pid_t) -> u64 {
+    let Ok(s) = std::fs::read_to_string(format!("/proc/{pid}/stat")) else {
+        return 0;
+    };
+    // fields after the parenthesised command name
+    let Some(p) = s.rfind(')') else {
+        return 0;
+    };
+    let f: Vec<&str> = s[p + 1..].split_whitespace().collect();
+    // f[0] is state (field 3); utime is field 14, stime field 15
+    let get = |i: usize| f.get(i).and_then(|x| x.parse::<u64>().ok()).unwrap_or(0);
+    get(11) + get(12)
 }
 
 pub fn fault_to_json(f: &Fault) -> Json {
